@@ -83,11 +83,19 @@ theorem rzleDec_spec {s : Imp} {e : HEdge} {sn : HNode} {self tg src : Nat} {s1 
         exact rzleDecide_spec hdec ht he hj
   · simp at hdec
 
-/-- the three traversal functions keep the tree, for every fuel -/
-theorem rzle_tree_all (f : Nat) :
-    (∀ s self ign s', Tree s.t → rzleNode f s self ign = some s' → Tree s'.t) ∧
-    (∀ s self ign l s', Tree s.t → rzleLoop f s self ign l = some s' → Tree s'.t) ∧
-    (∀ s eid ign s', Tree s.t → rzleEdge f s eid ign = some s' → Tree s'.t) := by
+/-- what one contraction performed by the traversal looks like: the edge `e`, listed at the live node
+    `sn`, was chosen by `rzleDec`, and `contract` returned `t2` -/
+structure RzleStep (s : Imp) (s2 : Imp) : Prop where
+  step : ∃ (e : HEdge) (sn : HNode) (tg src : Nat) (s1 : Imp) (t2 : HTree),
+    e ∈ s.t.edges ∧ sn ∈ s.t.nodes ∧ e.id ∈ sn.edges ∧ rzleDec s e sn sn.id = some (tg, src, s1) ∧
+    contract s1.t e.id tg src = some t2 ∧ s2 = { s1 with t := t2 }
+
+/-- Induction principle for the traversal: a property of the improver state that every single
+    contraction step preserves is preserved by `removeZeroLengthEdges`, for every fuel. -/
+theorem rzle_inv_all (P : Imp → Prop) (hstep : ∀ s s2, P s → RzleStep s s2 → P s2) (f : Nat) :
+    (∀ s self ign s', P s → rzleNode f s self ign = some s' → P s') ∧
+    (∀ s self ign l s', P s → rzleLoop f s self ign l = some s' → P s') ∧
+    (∀ s eid ign s', P s → rzleEdge f s eid ign = some s' → P s') := by
   induction f with
   | zero =>
     refine ⟨?_, ?_, ?_⟩
@@ -126,11 +134,12 @@ theorem rzle_tree_all (f : Nat) :
               -- the decision
               split at h
               · rename_i target source s1 hdec
-                obtain ⟨ht1, hj1⟩ := rzleDec_spec hdec ht he hsn hl hsid
-                rw [heid] at hj1
-                obtain ⟨t2, hc, ht2⟩ := contract_tree_id ht1 hj1
-                rw [hc] at h
-                exact ihN _ _ _ _ (by exact ht2) h
+                split at h
+                · simp at h
+                · rename_i t2 hc
+                  refine ihN _ _ _ _ (hstep s _ ht ⟨e, sn, target, source, s1, t2, he, hsn, hl, ?_, ?_, rfl⟩) h
+                  · rw [hsid]; exact hdec
+                  · rw [heid]; exact hc
               · split at h
                 · simp at h
                 · rename_i s2 hs2
@@ -146,7 +155,7 @@ theorem rzle_tree_all (f : Nat) :
           split at h
           · simp at h
           · rename_i s1 hs1
-            have ht1 : Tree s1.t := by
+            have ht1 : P s1 := by
               split at hs1
               · exact ihN _ _ _ _ ht hs1
               · simp only [Option.some.injEq] at hs1
@@ -162,9 +171,18 @@ theorem rzle_tree_all (f : Nat) :
                   subst h
                   exact ht1
 
+/-- one contraction step keeps the tree -/
+theorem rzleStep_tree {s s2 : Imp} (ht : Tree s.t) (h : RzleStep s s2) : Tree s2.t := by
+  obtain ⟨e, sn, tg, src, s1, t2, he, hsn, hl, hdec, hc, rfl⟩ := h.step
+  obtain ⟨ht1, hj1⟩ := rzleDec_spec hdec ht he hsn hl rfl
+  obtain ⟨t2', hc', ht2⟩ := contract_tree_id ht1 hj1
+  rw [hc] at hc'
+  cases hc'
+  exact ht2
+
 /-- `removeZeroLengthEdges(node, ignored)` keeps the hyperedge tree a well-formed tree -/
 theorem rzleNode_tree {f : Nat} {s : Imp} {self : Nat} {ign : Option Nat} {s' : Imp}
     (ht : Tree s.t) (h : rzleNode f s self ign = some s') : Tree s'.t :=
-  (rzle_tree_all f).1 s self ign s' ht h
+  (rzle_inv_all (fun s => Tree s.t) (fun _ _ ht hs => rzleStep_tree ht hs) f).1 s self ign s' ht h
 
 end AdaptaVerif.Lemmas.HyperTreeRzle
